@@ -152,6 +152,18 @@ CHECKS["C08"] = dict(
     technique="Lean 4 proof (mutual induction over the emitted schema) + semantic extraction tie (json_type ladders) + differential/oracle checks with jsonschema",
     design="5/C08")
 
+CHECKS["C15"] = dict(
+    text="Lean 4: walk_mirror (a successful load is, node for node, the mirror of the document: nesting, property order, kind by keyword "
+         "precedence, stated as a declarative relation), walk_docOf (json() gives the document back), walk_cache (the name cache is the keys "
+         "in post-order), refs_resolve_unique / fixups_resolve_unique (under unique names every backward, forward and DEPENDING ON reference "
+         "points at the one node bearing the name), dangling_is_ValueError, dnav_is_indexing (DNav = plain indexing along every supported "
+         "path, same value or same error), name_on_nonobject / index_on_nonarray. Corresponded with SchemaMaker.from_json and DNav on "
+         "generated documents, object graph compared by document paths.",
+    note="Trusted: Lean kernel; walk_schema/resolve/DNav modelled by hand, pinned (Tie/C15) and corresponded; object identity = document path. "
+         "Known finding D41 (a title equal to a foreign anchor can capture its references) is outside the unique-names hypothesis.",
+    technique="Lean 4 proof (mutual induction over nested-inductive documents; cache-prefix invariant) + pinned-source tie + differential correspondence",
+    design="5/C15")
+
 NOT_APPLICABLE = {
 }
 
